@@ -1,4 +1,5 @@
 /* wraps debug.c textually to reach its static FILE* and level */
+#include "interpose.h"
 #include "debug.c"
 
 static char *h_logbuf;
